@@ -228,6 +228,10 @@ def parse_action(toks, a, b):
         elif cur.try_eat("if ( parent -> $m ) { if ( cgi_map_contains ( parent -> $m , node_name ) == 1 ) "
                          "{ cgi_map_del_shift_item ( parent -> $m , node_name ) ; } }", c):
             extra.append(c["$m"])
+        elif cur.try_eat("if ( parent -> active_zconn > n + 1 ) parent -> active_zconn -- ; "
+                         "else if ( parent -> active_zconn == n + 1 ) parent -> active_zconn = 0 ;", c):
+            # after CGNS_DELETE_SHIFT (n = the index the deleted container had): the CURRENT container stays current
+            extra.append("active_zconn")
         elif cur.try_eat(RIND_TEMPLATE, c):
             acts.append("Scalar [%s]" % cs(c["$f"]))
         elif cur.try_eat("if ( parent -> $p ) { if ( parent -> $p -> $d ) free ( parent -> $p -> $d ) ; "
@@ -984,6 +988,56 @@ def parse_copy_rule(repo):
     return guard, guards[0][1], callers
 
 
+def parse_data_size(repo):
+    """src/cgns_io.c cgio_compute_data_size (the element size the node copy of compress-on-close allocates and moves): the
+    switch over the first letter of the data type as rows "<letters><digit>: <returned expression>" """
+    toks = load(repo, "cgns_io.c")
+    v = vals(toks)
+    fns = functions(toks)
+    if "cgio_compute_data_size" not in fns:
+        raise Fail("cgio_compute_data_size not found")
+    b0, b1 = fns["cgio_compute_data_size"]
+    i = b0
+    while i < b1 and v[i] != "switch":
+        i += 1
+    if i >= b1:
+        raise Fail("no switch")
+    rows, letters = [], []
+    j = v.index("{", i)
+    e = match_close(toks, j)
+    k = j + 1
+    while k < e:
+        if v[k] == "case":
+            letters.append(v[k + 1].strip("'")); k += 3; continue
+        if v[k] == "return":
+            q = k
+            while v[q] != ";":
+                q += 1
+            rows.append("%s: %s" % ("".join(letters), " ".join(v[k + 1:q]))); k = q + 1; letters = []; continue
+        if v[k] == "if" and v[k + 1] == "(":
+            c = match_close(toks, k + 1)
+            cond = v[k + 2:c]
+            if len(cond) == 6 and cond[:4] == ["data_type", "[", "1", "]"] and cond[4] == "==" and v[c + 1] == "return":
+                q = c + 1
+                while v[q] != ";":
+                    q += 1
+                rows.append("%s%s: %s" % ("".join(letters), cond[5].strip("'"), " ".join(v[c + 2:q]))); k = q + 1; continue
+            raise Fail("condition " + " ".join(cond))
+        if v[k] == "break":
+            letters = []; k += 2; continue
+        raise Fail("statement at " + " ".join(v[k:k + 5]))
+    tail = []
+    q = e + 1
+    while q < b1 and v[q] != "return":
+        q += 1
+    if q < b1:
+        z = q
+        while v[z] != ";":
+            z += 1
+        rows.append("otherwise: " + " ".join(v[q + 1:z]))
+    return rows
+
+
 def parse_general_write_cache(itoks):
     """cgi_array_general_write: does the branch that rewrites an existing DataArray_t node in place mention array->data (the
     copy cgi_read_array loads for most parents) at all?"""
@@ -1065,6 +1119,9 @@ def translate(repo):
     out.append("Definition copy_link_guard : bexp := %s." % g)
     out.append("Definition copy_else_recurses : bool := %s." % cbool(els))
     out.append("Definition copy_callers : list string := %s." % clist([cs(c) for c in cl]))
+    out.append("")
+    out.append("Definition data_size_rows : list string := %s." % clist(
+        [cs(c) for c in guarded(lambda: parse_data_size(repo), lambda w: ["UNPARSED " + w])], ";\n  "))
     out.append("")
     out.append("Definition general_write_mentions_cache : bool := %s." % cbool(guarded(lambda: parse_general_write_cache(itoks), lambda w: False)))
     out.append("")
